@@ -259,7 +259,7 @@ def check_one_prop(rel):
     return res
 
 
-def coq_check(pid, extra_targets=()):
+def coq_check(pid, extra_targets=(), failed_gen=None):
     """Build deps + re-check each theorem file. Returns dict."""
     props = props_files(pid)
     t = time.time()
@@ -276,6 +276,12 @@ def coq_check(pid, extra_targets=()):
         vo = os.path.join(COQ, rel + "o")
         return (not os.path.exists(vo)) or os.path.getmtime(vo) < os.path.getmtime(os.path.join(COQ, rel))
     stale_files = [f for f in closure if not f.startswith("Props/") and stale(f)]
+    for g, why in (failed_gen or {}).items():
+        rel = "Gen/" + g
+        for r in results:
+            if rel in dep_closure([r["file"]]) and r["ok"]:
+                r["ok"] = False
+                r["out"] = "depends on %s, whose constants could not be re-read from the source (%s); the committed baseline was used to keep the model running" % (rel, why)
     if stale_files:
         for r in results:
             bad = [f for f in dep_closure([r["file"]]) if f in stale_files]
@@ -744,7 +750,7 @@ def main(argv=None):
     # 2 coq
     if ok:
         extra = ["Extract/Extract%s.vo" % pid] if os.path.exists(os.path.join(COQ, "Extract", "Extract%s.v" % pid)) else []
-        coq = coq_check(pid, extra)
+        coq = coq_check(pid, extra, pins_info.get("failed") if isinstance(pins_info, dict) else None)
         for t in coq["theorems"]:
             if not t["ok"]:
                 run.notes.append("theorem %s no longer checks: %s" % (t["name"], t["out"][-400:]))
